@@ -13,19 +13,20 @@ Section Sim.
   Variable n0 cur0 : nat.
   Variable FV : name -> option val.
   Variable resl : list name.
+  Variable mutl : list name.
   Notation prot := (prot0 n0 resl).
   Notation ext_at := (ext_at n0 resl).
   Notation kext := (kext n0 resl).
-  Notation vrel := (vrel n0 cur0 FV resl).
-  Notation vrels := (vrels n0 cur0 FV resl).
-  Notation srel := (srel n0 cur0 FV resl).
-  Notation agree := (agree n0 cur0 FV resl).
-  Notation post := (post n0 cur0 FV resl).
-  Notation fzr := (fzr FV).
-  Notation fzrL := (fzrL FV).
-  Notation fzrOps := (fzrOps FV).
-  Notation sim_at := (sim_at n0 cur0 FV resl).
-  Notation pre := (pre n0 cur0 FV resl).
+  Notation vrel := (vrel n0 cur0 FV resl mutl).
+  Notation vrels := (vrels n0 cur0 FV resl mutl).
+  Notation srel := (srel n0 cur0 FV resl mutl).
+  Notation agree := (agree n0 cur0 FV resl mutl).
+  Notation post := (post n0 cur0 FV resl mutl).
+  Notation fzr := (fzr FV mutl).
+  Notation fzrL := (fzrL FV mutl).
+  Notation fzrOps := (fzrOps FV mutl).
+  Notation sim_at := (sim_at n0 cur0 FV resl mutl).
+  Notation pre := (pre n0 cur0 FV resl mutl).
 
   Hypothesis Hcur0 : cur0 < n0.
 
@@ -111,9 +112,9 @@ Section Sim.
     - apply post_ret; auto. constructor.
     - (* identifier kept *)
       destruct S as [FR O W N C].
-      pose proof (lookup_rel n0 cur0 FV resl (frames st) (frames st) (frames st') cur x FR) as L.
+      pose proof (lookup_rel n0 cur0 FV resl mutl (frames st) (frames st) (frames st') cur x FR) as L.
       destruct (lookup (frames st) cur x) as [v|]; destruct (lookup (frames st') cur x) as [v'|]; try contradiction.
-      + apply post_ret; auto. constructor; auto.
+      + destruct L as [L|L]; [congruence|]. apply post_ret; auto. constructor; auto.
       + apply post_throw_err; auto. constructor; auto.
     - (* identifier resolved by freeze *)
       destruct (Ag x v (PP x H) H1) as (w & Lw & Rw).
@@ -156,8 +157,8 @@ Section Sim.
       + intros y Hy. apply in_or_app; auto.
       + intros y Hy. apply in_or_app; auto.
       + intros st1 st1' v v' E K S1 Ag1 Rv.
-        assert (PR1 := pre_after n0 cur0 FV resl Hcur0 _ _ _ c _ _ _ _ _ _ PR E K S1 Ag1).
-        rewrite <- (vrel_truthy _ _ _ _ _ _ _ Rv). destruct (truthy v).
+        assert (PR1 := pre_after n0 cur0 FV resl mutl Hcur0 _ _ _ c _ _ _ _ _ _ PR E K S1 Ag1).
+        rewrite <- (vrel_truthy _ _ _ _ _ _ _ _ Rv). destruct (truthy v).
         * eapply post_weaken; [eapply use_rec; eauto|].
           -- intros y Hy. apply in_or_app. right. apply in_or_app; auto.
           -- intros y Hy. apply in_or_app; auto.
@@ -167,8 +168,8 @@ Section Sim.
           -- intros y Hy. apply in_or_app; auto.
     - (* while *)
       change (ddecl (EWhile c b)) with (@nil name) in *. unfold eval_while.
-      pose proof (enter_frame n0 cur0 FV resl Hcur0 P D B st st' cur (while_budget c b) (while_budget c' b') S Ag CI CH LC PP) as PRf.
-      destruct (srel_push n0 cur0 FV resl Hcur0 st st' cur (while_budget c b) (while_budget c' b') S LC) as (_ & F1 & F2).
+      pose proof (enter_frame n0 cur0 FV resl mutl Hcur0 P D B st st' cur (while_budget c b) (while_budget c' b') S Ag CI CH LC PP) as PRf.
+      destruct (srel_push n0 cur0 FV resl mutl Hcur0 st st' cur (while_budget c b) (while_budget c' b') S LC) as (_ & F1 & F2).
       destruct (push_frame st cur (while_budget c b)) as [st1 fr] eqn:P1.
       destruct (push_frame st' cur (while_budget c' b')) as [st1' fr'] eqn:P2.
       cbn [fst snd] in *. subst fr fr'.
@@ -190,8 +191,8 @@ Section Sim.
         - unfold while_budget. intros y Hy. apply in_or_app; auto.
         - unfold while_budget. intros y Hy. apply in_or_app; auto.
         - intros st2 st2' v v' E2 K2 S2 Ag2 Rv.
-          assert (PR2 := pre_after n0 cur0 FV resl Hcur0 _ _ _ c _ _ _ _ _ _ PRf E2 K2 S2 Ag2).
-          rewrite <- (vrel_truthy _ _ _ _ _ _ _ Rv). destruct (truthy v).
+          assert (PR2 := pre_after n0 cur0 FV resl mutl Hcur0 _ _ _ c _ _ _ _ _ _ PRf E2 K2 S2 Ag2).
+          rewrite <- (vrel_truthy _ _ _ _ _ _ _ _ Rv). destruct (truthy v).
           + eapply post_bind with (D1 := ddecl b) (D2 := []); try apply incl_refl.
             * eapply use_rec; eauto. unfold while_budget. intros y Hy. apply in_or_app; auto.
             * intros ? [].
@@ -224,7 +225,7 @@ Section Sim.
       eapply post_bind with (D1 := []) (D2 := []); try apply incl_refl; [exact ITER|].
       intros st3 st3' [g1 w1] [g2 w2] E3 K3 S3 Ag3 R3. cbn [fst] in *. subst g2.
       destruct g1.
-      + eapply (use_rec n0 cur0 FV resl rec P D B st3 st3' cur [] (EWhile c b) (EWhile c' b') HR); eauto.
+      + eapply (use_rec n0 cur0 FV resl mutl rec P D B st3 st3' cur [] (EWhile c b) (EWhile c' b') HR); eauto.
         * eapply pre_same; eauto.
         * intros ? [].
       + apply post_ret; auto. constructor.
@@ -238,7 +239,7 @@ Section Sim.
       + rewrite H0. apply incl_refl.
       + apply incl_refl.
       + intros st1 st1' v v' E K S1 Ag1 Rv.
-        assert (PR1 := pre_after n0 cur0 FV resl Hcur0 _ _ _ e0 _ _ _ _ _ _ PR E K S1 Ag1).
+        assert (PR1 := pre_after n0 cur0 FV resl mutl Hcur0 _ _ _ e0 _ _ _ _ _ _ PR E K S1 Ag1).
         assert (Zb : In x (for_budget x cls body)) by (left; auto).
         inversion Rv; subst; cbn [iter_elems];
           try (apply post_throw_err; auto; fail); try (apply post_unsupp; auto; fail).
@@ -268,21 +269,21 @@ Section Sim.
       + intros ? [].
       + intros st1 st1' v v' E K S1 Ag1 Rv.
         eapply eval_arms_sim; eauto.
-        eapply (pre_after n0 cur0 FV resl Hcur0); eauto.
+        eapply (pre_after n0 cur0 FV resl mutl Hcur0); eauto.
     - (* try *)
       change (ddecl (ETry b x h)) with (ddecl b) in *. unfold eval_try.
-      pose proof (use_rec n0 cur0 FV resl rec P D B st st' cur (ddecl b) b b' HR PR H (incl_refl _)) as PB.
+      pose proof (use_rec n0 cur0 FV resl mutl rec P D B st st' cur (ddecl b) b b' HR PR H (incl_refl _)) as PB.
       destruct (rec st cur b) as [st1 r1] eqn:R1. destruct (rec st' cur b') as [st1' r1'] eqn:R1'.
       destruct PB as [AB|(E & K & S1 & Ag1 & RR)]; cbn [fst snd] in *.
       + left. destruct AB; subst r1; cbn; [left|right]; reflexivity.
       + destruct r1 as [v|[v| |]|]; destruct r1' as [v'|[v'| |]|]; cbn in RR; try contradiction.
         * right. cbn. split5; auto.
         * (* the handler, in a fresh frame that holds the thrown value *)
-          assert (PR1 := pre_after n0 cur0 FV resl Hcur0 _ _ _ b _ _ _ _ _ _ PR E K S1 Ag1).
+          assert (PR1 := pre_after n0 cur0 FV resl mutl Hcur0 _ _ _ b _ _ _ _ _ _ PR E K S1 Ag1).
           eapply post_prefix with (D1 := ddecl b) (D2 := []); eauto; [|apply incl_refl|intros ? []].
           destruct PR1 as [S1b Ag1b CI1 CH1 LC1 BU1 PP1].
-          pose proof (enter_frame n0 cur0 FV resl Hcur0 P D (bnd B b) st1 st1' cur (catch_budget x h) (catch_budget x h') S1 Ag1 CI1 CH1 LC1 PP1) as PRf.
-          destruct (srel_push n0 cur0 FV resl Hcur0 st1 st1' cur (catch_budget x h) (catch_budget x h') S1 LC1) as (_ & F1 & F2).
+          pose proof (enter_frame n0 cur0 FV resl mutl Hcur0 P D (bnd B b) st1 st1' cur (catch_budget x h) (catch_budget x h') S1 Ag1 CI1 CH1 LC1 PP1) as PRf.
+          destruct (srel_push n0 cur0 FV resl mutl Hcur0 st1 st1' cur (catch_budget x h) (catch_budget x h') S1 LC1) as (_ & F1 & F2).
           destruct (push_frame st1 cur (catch_budget x h)) as [st2 fr] eqn:P1.
           destruct (push_frame st1' cur (catch_budget x h')) as [st2' fr'] eqn:P2.
           cbn [fst snd] in *. subst fr fr'.
@@ -294,7 +295,7 @@ Section Sim.
           eapply post_fresh with (fr := length (frames st1)) (Dn := catch_budget x h); eauto.
           destruct PRf as [S2 Ag2 CI2 CH2 LC2 BU2 PP2].
           eapply post_bind with (D1 := [x]) (D2 := ddecl h).
-          -- apply (declare_all_sim n0 cur0 FV resl Hcur0 [(x, v)] [(x, v')]); auto.
+          -- apply (declare_all_sim n0 cur0 FV resl mutl Hcur0 [(x, v)] [(x, v')]); auto.
              ++ constructor; [|constructor]. split; auto. cbn. eapply vrel_mono; eauto.
              ++ intros G z [<-|[]]. apply BU2; auto. left; auto.
           -- intros z [<-|[]]. left; auto.
@@ -319,7 +320,7 @@ Section Sim.
       intros z Pz Bz. apply CI; auto. eapply mem_app_false; eauto.
     - (* call *)
       change (ddecl (ECall f args)) with (ddecl f ++ flat_map ddecl args) in *. unfold eval_call.
-      rewrite <- (fzr_underscore _ _ _ _ _ _ H), <- (fzrL_underscore _ _ _ _ _ _ H0).
+      rewrite <- (fzr_underscore _ _ _ _ _ _ _ H), <- (fzrL_underscore _ _ _ _ _ _ _ H0).
       destruct (is_underscore f || existsb is_underscore args).
       { eapply post_weaken; [apply post_unsupp; auto|intros ? []]. }
       eapply post_bind with (D1 := ddecl f) (D2 := flat_map ddecl args).
@@ -327,7 +328,7 @@ Section Sim.
       + intros z Hz. apply in_or_app; auto.
       + intros z Hz. apply in_or_app; auto.
       + intros st1 st1' fv fv' E K S1 Ag1 Rv.
-        assert (PR1 := pre_after n0 cur0 FV resl Hcur0 _ _ _ f _ _ _ _ _ _ PR E K S1 Ag1).
+        assert (PR1 := pre_after n0 cur0 FV resl mutl Hcur0 _ _ _ f _ _ _ _ _ _ PR E K S1 Ag1).
         eapply post_bind with (D1 := flat_map ddecl args) (D2 := []).
         * eapply eval_exprs_sim; eauto. intros z Hz. apply in_or_app; auto.
         * apply incl_refl.
@@ -336,11 +337,11 @@ Section Sim.
           eapply apply_val_sim; eauto. eapply vrel_mono; eauto. destruct S1; auto.
     - (* -constant, folded by freeze *)
       change (ddecl (ECall f [a])) with (ddecl f ++ flat_map ddecl [a]) in *. unfold eval_call.
-      rewrite (fzr_underscore _ _ _ _ _ _ H). cbn [is_underscore orb existsb].
-      rewrite (fzr_underscore _ _ _ _ _ _ H0).
+      rewrite (fzr_underscore _ _ _ _ _ _ _ H). cbn [is_underscore orb existsb].
+      rewrite (fzr_underscore _ _ _ _ _ _ _ H0).
       assert (NU : is_underscore a' = false) by (destruct a'; cbn in H1; try discriminate; auto).
       rewrite NU. cbn [orb].
-      pose proof (use_rec n0 cur0 FV resl rec P D B st st' cur (ddecl (ECall f [a])) f _ HR PR H) as PF.
+      pose proof (use_rec n0 cur0 FV resl mutl rec P D B st st' cur (ddecl (ECall f [a])) f _ HR PR H) as PF.
       destruct (const_eval n st' cur (EFrozen (VPrim PSub p)) _ eq_refl) as [EF|EF]; fold rec in EF; rewrite EF in PF.
       { destruct PF as [AB|(_ & _ & _ & _ & RR)].
         - intros nm Hn. apply in_or_app; auto.
@@ -351,14 +352,14 @@ Section Sim.
       + intros nm Hn. apply in_or_app; auto.
       + intros nm Hn. apply in_or_app; auto.
       + intros st1 fv E K S1 Ag1 Rv. inversion Rv; subst.
-        assert (PR1 := pre_after n0 cur0 FV resl Hcur0 _ _ _ f _ _ _ _ _ _ PR E K S1 Ag1).
+        assert (PR1 := pre_after n0 cur0 FV resl mutl Hcur0 _ _ _ f _ _ _ _ _ _ PR E K S1 Ag1).
         cbn [eval_exprs flat_map].
         assert (SINGLE : forall (r : result val) (k : state -> list val -> result val),
                   bindR (bindR r (fun s1 v => bindR (ret s1 []) (fun s2 vs => ret s2 (v :: vs)))) k =
                   bindR r (fun s1 v => k s1 [v])).
         { intros [s0 [v0|sg|]] k; reflexivity. }
         rewrite SINGLE.
-        pose proof (use_rec n0 cur0 FV resl rec P D (bnd B f) st1 st' cur (ddecl (ECall f [a])) a a' HR PR1 H0) as PA.
+        pose proof (use_rec n0 cur0 FV resl mutl rec P D (bnd B f) st1 st' cur (ddecl (ECall f [a])) a a' HR PR1 H0) as PA.
         destruct (const_eval n st' cur a' _ H1) as [EA|EA]; fold rec in EA; rewrite EA in PA.
         { destruct PA as [AB|(_ & _ & _ & _ & RR)].
           - intros nm Hn. apply in_or_app. right. cbn. rewrite app_nil_r in *. auto.
@@ -372,7 +373,7 @@ Section Sim.
           apply post_ret; auto. constructor.
     - (* operator chain *)
       change (ddecl (EChain a ops)) with (ddecl a ++ ops_decl ops) in *. unfold eval_chain.
-      rewrite <- (fzr_underscore _ _ _ _ _ _ H), <- (fzrOps_underscore _ _ _ _ _ _ H0).
+      rewrite <- (fzr_underscore _ _ _ _ _ _ _ H), <- (fzrOps_underscore _ _ _ _ _ _ _ H0).
       destruct (is_underscore a || existsb (fun p => is_underscore (snd p)) ops).
       { eapply post_weaken; [apply post_unsupp; auto|intros ? []]. }
       assert (GEN : post vrel st cur (ddecl a ++ ops_decl ops)
@@ -383,7 +384,7 @@ Section Sim.
         - intros z Hz. apply in_or_app; auto.
         - intros z Hz. apply in_or_app; auto.
         - intros st1 st1' v v' E K S1 Ag1 Rv.
-          assert (PR1 := pre_after n0 cur0 FV resl Hcur0 _ _ _ a _ _ _ _ _ _ PR E K S1 Ag1).
+          assert (PR1 := pre_after n0 cur0 FV resl mutl Hcur0 _ _ _ a _ _ _ _ _ _ PR E K S1 Ag1).
           eapply chain_ops_sim; eauto.
           + intros z Hz. apply in_or_app; auto.
           + constructor. }
@@ -396,14 +397,14 @@ Section Sim.
       + intros z Hz. apply in_or_app; auto.
       + intros z Hz. apply in_or_app; auto.
       + intros st1 st1' lhs lhs' E K S1 Ag1 Rl.
-        assert (PR1 := pre_after n0 cur0 FV resl Hcur0 _ _ _ a _ _ _ _ _ _ PR E K S1 Ag1).
+        assert (PR1 := pre_after n0 cur0 FV resl mutl Hcur0 _ _ _ a _ _ _ _ _ _ PR E K S1 Ag1).
         eapply post_bind with (D1 := ddecl o) (D2 := ddecl d).
         * eapply use_rec; eauto. intros z Hz. apply in_or_app. right. apply in_or_app; auto.
         * intros z Hz. apply in_or_app; auto.
         * intros z Hz. apply in_or_app; auto.
         * intros st2 st2' opv opv' E2 K2 S2 Ag2 Ro.
-          assert (PR2 := pre_after n0 cur0 FV resl Hcur0 _ _ _ o _ _ _ _ _ _ PR1 E2 K2 S2 Ag2).
-          rewrite <- (vrel_is_func _ _ _ _ _ _ _ Ro). destruct (is_func opv); cbn [negb].
+          assert (PR2 := pre_after n0 cur0 FV resl mutl Hcur0 _ _ _ o _ _ _ _ _ _ PR1 E2 K2 S2 Ag2).
+          rewrite <- (vrel_is_func _ _ _ _ _ _ _ _ Ro). destruct (is_func opv); cbn [negb].
           2:{ eapply post_weaken; [apply post_throw_err; auto|intros ? []]. }
           eapply post_bind with (D1 := ddecl d) (D2 := []).
           -- eapply use_rec; eauto. intros z Hz. apply in_or_app. right. apply in_or_app; auto.
@@ -418,7 +419,7 @@ Section Sim.
                 eapply vrel_mono with (fs := frames st2); eauto. eapply vrel_mono; eauto.
     - (* list literal *)
       change (ddecl (EList es)) with (flat_map ddecl es) in *.
-      rewrite <- (fzrL_underscore _ _ _ _ _ _ H).
+      rewrite <- (fzrL_underscore _ _ _ _ _ _ _ H).
       destruct (existsb is_underscore es).
       { eapply post_weaken; [apply post_unsupp; auto|intros ? []]. }
       eapply post_bind with (D1 := flat_map ddecl es) (D2 := []); try apply incl_refl.
@@ -427,8 +428,8 @@ Section Sim.
       + intros st1 st1' vs vs' E K S1 Ag1 Rvs. apply post_ret; auto. constructor; auto.
     - (* list literal of constants, folded by freeze *)
       change (ddecl (EList es)) with (flat_map ddecl es) in *.
-      rewrite (fzrL_underscore _ _ _ _ _ _ H), (consts_no_underscore _ _ H0).
-      pose proof (eval_exprs_sim n0 cur0 FV resl Hcur0 rec HR P D B es es' H st st' cur _ PR (incl_refl _)) as PE.
+      rewrite (fzrL_underscore _ _ _ _ _ _ _ H), (consts_no_underscore _ _ H0).
+      pose proof (eval_exprs_sim n0 cur0 FV resl mutl Hcur0 rec HR P D B es es' H st st' cur _ PR (incl_refl _)) as PE.
       destruct (consts_eval n st' cur es' vs H0) as [EE|[s EE]]; fold rec in EE; rewrite EE in PE.
       2:{ destruct PE as [AB|(_ & _ & _ & _ & RR)].
           - left. destruct (eval_exprs rec st cur es) as [s1 r]. cbn in *. destruct AB; subst r; cbn; [left|right]; reflexivity.
